@@ -94,10 +94,13 @@ def main(tier, seed):
                 for alt in ALT_ERRNO.get(names[k], ()):
                     jobs.append((tr["scenario"], {k: alt}))
             if thorough:
-                for k, m in itertools.combinations(range(n), 2):
-                    if rng.random() < 0.35 and not names[k].startswith("env_"):
-                        # the second index refers to the event sequence AFTER the first fault changed it; any index is a valid plan
-                        jobs.append((tr["scenario"], {k: ERRNO.get(names[k], errno.EIO), m: errno.EIO}))
+                # every pair: the second index refers to the event sequence AFTER the first fault changed it (which is
+                # usually a few clean-up events long), so it ranges a little past the fault-free length
+                for k in range(n):
+                    if names[k].startswith("env_"):
+                        continue
+                    for m in range(k + 1, n + 3):
+                        jobs.append((tr["scenario"], {k: ERRNO.get(names[k], errno.EIO), m: rng.choice([errno.EIO, errno.ENOSPC, errno.EACCES])}))
         faulted = pool.map(_job, jobs, chunksize=16)
     traces = base + faulted
     stats.extra.update({"configurations": len(cfgs), "fault_runs": len(faulted),
@@ -110,7 +113,7 @@ def main(tier, seed):
     rc = verdict.finish()
     cov = stats.coverage(
         "fault-free run of every configuration / body, then one run per (configuration, event index) with an OSError injected there "
-        "(plus sampled pairs in the thorough tier); every run judged by TLC. distinct_nontrivial = distinct (configuration, fault plan) "
+        "(plus every pair of failures in the thorough tier); every run judged by TLC. distinct_nontrivial = distinct (configuration, fault plan) "
         "runs in which an injected fault actually fired.", not thorough and False)
     cov["evaluations"] = len(traces)
     core.write_evidence(PROP, tier, seed, cov, ["a fault replaces the call (no partial effect)", "kernel semantics of link/rename/unlink trusted"],
